@@ -1,6 +1,7 @@
 package c05oracle
 
 import (
+	"encoding/json"
 	"fmt"
 	"math/big"
 	"sort"
@@ -36,6 +37,10 @@ func (g *gen) scalar() any {
 			return z
 		}
 		return r.Range(100, 105)
+	case 9:
+		// number literals as the command decodes them (json.Number), in spellings that are not
+		// the canonical one: a rewritten leaf changes its Go type and its serialisation
+		return json.Number(common.Pick(r, []string{"2.50", "1e1", "1.0", "10", "-0", "0.5e1", "100000000000000000000", "3", "1E2", "0.10"}))
 	default:
 		return common.Pick(r, []string{"a", "b", "c", "ab", "A b", "a,b", "x", "", "é", "10", "abc abc", "B"})
 	}
@@ -197,6 +202,23 @@ func (g *gen) shaped(shape string) any {
 			xs[0] = g.flat(1, 3)
 		}
 		return xs
+	case "long":
+		// operands beyond any small-size fast path, not in sorted order, with repeated members
+		mk := func(n int) []any {
+			xs := make([]any, n)
+			for i := range xs {
+				switch r.Intn(5) {
+				case 0:
+					xs[i] = g.scalar()
+				case 1:
+					xs[i] = []any{r.Range(0, 9)}
+				default:
+					xs[i] = r.Range(0, 60)
+				}
+			}
+			return xs
+		}
+		return map[string]any{"all": mk(r.Range(33, 80)), "done": mk(r.Range(33, 70)), "few": mk(r.Range(0, 5))}
 	case "null":
 		return nil
 	default:
